@@ -1015,9 +1015,13 @@ func (c *Client) handleModifyResponse(m *spb.ModifyResponse) error {
 
 	for _, r := range m.Result {
 		res, err := c.clearPendingOp(r)
-		c.qs.resultq = append(c.qs.resultq, res)
 		if err != nil {
 			return fmt.Errorf("cannot remove pending operation %d, %v", r.Id, err)
+		}
+		// There is no result to report for an operation that has already been
+		// completed - the result queue never holds nil entries.
+		if res != nil {
+			c.qs.resultq = append(c.qs.resultq, res)
 		}
 	}
 
